@@ -141,12 +141,31 @@ class Ctx:
         exe = self.build_vh(race=race)
         env = goenv()
         env["VERIF_SEED"] = str(self.seed)
+        env.update(getattr(self, "grammar_env", {}))
         if env_extra:
             env.update(env_extra)
         try:
             return sh([exe] + args, cwd=self.work, env=env, timeout=timeout, check=check, stdin=stdin)
         except subprocess.TimeoutExpired:
             raise ToolFailure("harness timed out: vh %s" % " ".join(args))
+
+    def grammar_corpus(self, stride=1, per=3, maxlen=3):
+        """the grammar corpus (spec/Frontend/ExprGen.tla expressions + ReadOnlyGate.tla clause skeletons) as one ndjson file;
+        the harness reads it through VH_GRAMMAR (frontarea/grammar.go).  stride thins the depth-2 expressions for Models(),
+        per = positions per depth-2 expression in the faithfulness run."""
+        path = os.path.join(self.work, "grammar.ndjson")
+        if not os.path.exists(path):
+            r = self.tlc("Frontend", "ExprGen", "ExprGen.cfg", workers=1, timeout=900, copy_suffix="-gram")
+            recs = self.printed_json(r.out)
+            r2 = self.tlc("Frontend", "ReadOnlyGate", cfg_text="SPECIFICATION Spec\nCONSTANTS MaxLen = %d\nCHECK_DEADLOCK FALSE\n" % maxlen,
+                          workers=8, timeout=1500, copy_suffix="-gram")
+            sk = self.printed_json(r2.out)
+            if len(recs) < 5000 or len(sk) < 100:
+                raise ToolFailure("grammar generators printed %d expressions and %d skeletons:\n%s" % (len(recs), len(sk), (r.out + r2.out)[-1500:]))
+            write_ndjson(path, recs + sk)
+            self.cov["grammar_corpus"] = {"expressions": len(recs), "clause_skeletons": len(sk)}
+        self.grammar_env = {"VH_GRAMMAR": path, "VH_GRAMMAR_STRIDE": str(stride), "VH_GRAMMAR_PER": str(per)}
+        return path
 
     # ---------------- TLC
     def spec_copy(self, area, suffix=""):
